@@ -5,7 +5,7 @@
     sink content must equal the round-by-round sequential meaning ([ev_replay],
     [ev_iterate], [ONested], [ONestedO] in Model/Pipe.v); bodies may join the stream with a
     constant side input defined outside the loop, cached and replayed every round
-    ([OJoinSide]). *)
+    ([OJoinSide]: side input on the right of the join, [OJoinSideL]: on the left). *)
 From Noir Require Import Model.Pipe Corr.Canon.
 From Noir Require Corr.C01.
 From Coq Require Import NArith.
@@ -18,5 +18,5 @@ Definition report (cs : list case) := classify corr_ok prop_ok known_class cs.
 
 (** nested loops whose body reads the enclosing loop's state ([ONestedO]) *)
 Definition has_outer_read (c : case) : bool := C01.has_outer_read (C01.c_pipe c).
-(** loops whose body joins with a constant side input ([OJoinSide]) *)
+(** loops whose body joins with a constant side input ([OJoinSide] / [OJoinSideL]) *)
 Definition has_loop_join_side (c : case) : bool := C01.has_loop_join_side (C01.c_pipe c).
